@@ -87,6 +87,8 @@ DEFAULT_PROFILE = {
     'enum_defval_via_type': True,  # D22
     'multi_import_clauses': True,
     'allow_no_imports': True,
+    'reuse_names': True,          # a module may declare a node named like a node of an earlier module
+
     'plain_type_from_local_tc': True,   # D35
     'augments_forward_oid': True,       # D36: augmented row sorts after the augmenting row
 
@@ -303,11 +305,25 @@ class Builder(object):
             elif n['module'] != mod['name'] and '-' in n['name'] and not self.prof['hyphen_imports']:
                 continue
             out.append(n)
-        return out
+        # a local declaration hides same-named nodes of other modules
+        local_names = set(n['name'] for n in out if n['module'] == mod['name'])
+        seen = set()
+        res = []
+        for n in out:
+            if n['module'] != mod['name'] and n['name'] in local_names:
+                continue
+            if n['module'] != mod['name'] and not n.get('fixture'):
+                if n['name'] in seen:
+                    continue
+                seen.add(n['name'])
+            res.append(n)
+        return res
 
-    def new_oid(self, mod, local_bias=True):
+    def new_oid(self, mod, local_bias=True, fixtures_only=False):
         draw = self.draw
         cands = self.visible_nodes(mod)
+        if fixtures_only:
+            cands = [n for n in cands if n.get('fixture')]
         local = [n for n in cands if n['module'] == mod['name']]
         choice = draw(st.integers(0, 9))
         if choice == 0:
@@ -340,6 +356,10 @@ class Builder(object):
             else:
                 spelled.append(['n', k])
         return {'first': first, 'arcs': spelled}, oid
+
+    def shadowed(self, mod, o):
+        """o (a pool entry of another module) is hidden by a local declaration of the same name."""
+        return o['module'] != mod['name'] and any(n['module'] == mod['name'] and n['name'] == o['name'] for n in self.nodes)
 
     def reg_node(self, mod, name, oid):
         self.nodes.append({'module': mod['name'], 'name': name, 'oid': tuple(oid)})
@@ -689,6 +709,7 @@ def _gen_table(b, mod):
     augments = None
     index = None
     others = [r for r in b.rows if (r['module'] == mod['name'] or b.prof['hyphen_imports'] or '-' not in r['name'])]
+    others = [r for r in others if not b.shadowed(mod, r)]
     if not b.prof['augments_forward_oid']:
         others = [r for r in others if r['module'] != mod['name'] or tuple(r['oid']) < tuple(rnum)]
     if others and not v1 and draw(st.integers(0, 3)) == 0:
@@ -699,7 +720,8 @@ def _gen_table(b, mod):
         pool = [[mod['name'], c['name']] for c in cols]
         foreign = [[o['module'], o['name']] for o in b.objects if o['role'] == 'column'
                    and o['name'] not in [c['name'] for c in cols]
-                   and (o['module'] == mod['name'] or b.prof['hyphen_imports'] or '-' not in o['name'])]
+                   and (o['module'] == mod['name'] or b.prof['hyphen_imports'] or '-' not in o['name'])
+                   and not b.shadowed(mod, o)]
         idx = []
         for i in range(nidx):
             src = foreign if (foreign and draw(st.integers(0, 2)) == 0) else pool
@@ -741,6 +763,7 @@ def _seq_syntax(draw, syn):
 def _pick_refs(b, mod, pool, lo, hi):
     draw = b.draw
     pool = [o for o in pool if (o['module'] == mod['name'] or b.prof['hyphen_imports'] or '-' not in o['name'])]
+    pool = [o for o in pool if not b.shadowed(mod, o)]
     if mod['dialect'] == 'v1':
         pool = [o for o in pool if o['module'] == mod['name'] or _is_v1_module(b, o['module'])]
     if not pool:
@@ -789,6 +812,7 @@ def _gen_tt(b, mod):
 def _gen_og(b, mod):
     pool = [o for o in b.objects if o['role'] in ('scalar', 'column')]
     pool = [o for o in pool if (o['module'] == mod['name'] or b.prof['hyphen_imports'] or '-' not in o['name'])]
+    pool = [o for o in pool if not b.shadowed(mod, o)]
     if not pool:
         return _gen_scalar(b, mod)
     objs = _pick_refs(b, mod, pool, 1, 6) or [[pool[0]['module'], pool[0]['name']]]
@@ -1065,6 +1089,28 @@ def module_sets(draw, prof=None):
         ndecl = draw(st.integers(*prof['decls']))
         groups = []   # list of decl lists (kept adjacent only logically)
         has_mi = False
+        if prof['reuse_names'] and mi > 0 and draw(st.integers(0, 2)) == 0:
+            # before anything of this module refers to them: re-declare names that earlier modules define
+            foreign = [n for n in b.nodes if not n.get('fixture') and n['module'] != mname]
+            for n in draw(st.lists(st.sampled_from(foreign), max_size=2, unique_by=lambda x: x['name'])) if foreign else []:
+                oid, num = b.new_oid(mod, fixtures_only=True)
+                b.reg_node(mod, n['name'], num)
+                chain = [{'k': 'value', 'name': n['name'], 'oid': oid, 'num': list(num)}]
+                # and a small subtree below the re-declared name (its parent must resolve locally)
+                parent_name, parent_num = n['name'], tuple(num)
+                for depth in range(draw(st.integers(0, 2))):
+                    cname = b.names.lower()
+                    arc = draw(st.integers(1, 9))
+                    cnum = parent_num + (arc,)
+                    while cnum in b.used_oids:
+                        arc += 1
+                        cnum = parent_num + (arc,)
+                    b.used_oids.add(cnum)
+                    b.reg_node(mod, cname, cnum)
+                    chain.append({'k': 'value', 'name': cname, 'oid': {'first': ['ref', mname, parent_name], 'arcs': [['n', arc]]},
+                                  'num': list(cnum)})
+                    parent_name, parent_num = cname, cnum
+                groups.append(chain)
         if dialect == 'v2' and 'mi' in (prof['kinds'] or ('mi',)) and draw(st.integers(0, 3)):
             groups.append(_gen_mi(b, mod))
             has_mi = True
